@@ -3,13 +3,80 @@
 the same abstract values run through matrixValidateCertsExt, every answer validated against MxX509_Trace."""
 import os, sys, json, time, random, subprocess
 sys.path.insert(0, os.path.dirname(os.path.abspath(__file__)))
-import runner, tlcutil, x509gen
+import runner, tlcutil, x509gen, crlgen
 from concurrent.futures import ThreadPoolExecutor
 
 ASSUME = ["certificates are generated with OpenSSL (harness/certgen.c) from the abstract values; the mapping abstract field -> DER is trusted",
           "success of the API = return code >= 0 and every presented certificate PS_CERT_AUTH_PASS (the function records soft failures in authStatus while returning 0)",
           "completeness (Valid => accepted) is claimed for chains presented leaf-first, SHA-256 signatures, CA certificates with keyUsage, consistent key identifiers (Supported in MxX509.tla)",
-          "universe: 7 chain shapes x 5 anchor sets x two single-field deviations at any of 4 positions (77k abstract scenarios); CRLs not modelled"]
+          "universe: 7 chain shapes x 5 anchor sets x two single-field deviations at any of 4 positions (77k abstract scenarios)",
+          "revocation (MxCrl): a universe of 7 certificates (trust anchor, an impostor of the same name, an intermediate, leaves of each) and 6 CRLs (authentic, empty, expired, forged, of the intermediate); histories of CRL loads (authenticated against the trust anchor or not at all) and chain validations against the process-wide CRL cache; an expired CRL decides nothing (the code's reading)"]
+
+def crl_part(prop, tier, seed, bdir, wd, violations):
+    st = {}
+    for cfg, must_fail, what in (("MxCrl_MC.cfg", False, ""), ("MxCrl_MC_reauth.cfg", True, "re-authenticating a cached CRL against the presented parent every time must lose a loaded revocation"),
+                                 ("MxCrl_MC_genuine.cfg", True, "persisting the opportunistic authentication must allow a bogus revocation"),
+                                 ("MxCrl_MC_vac1.cfg", True, "a revocation must be reachable"), ("MxCrl_MC_vac2.cfg", True, "an acceptance with a CRL in the cache must be reachable")):
+        r = tlcutil.run_tlc("MxCrl_MC.tla", cfg, workers=8, timeout=900, tag="mcC03crl")
+        viol = bool(r["violation"]) or "is violated" in r["out"]
+        if must_fail and not viol:
+            raise SystemExit("INFRA: sensitivity / vacuity guard failed (%s): %s" % (cfg, what))
+        if not must_fail:
+            if viol:
+                p = os.path.join(wd, "model_violation_crl.txt"); open(p, "w").write(r["out"][-20000:])
+                violations.append(("model", "MxCrl: a property fails on the model of the revocation cache (see file)", p))
+            elif not r["ok"]:
+                print(r["out"][-3000:]); raise SystemExit("INFRA: TLC failed on MxCrl_MC")
+            st["crl_states"] = r.get("states", 0)
+    pkidir = os.path.join(runner.WORK, "pki_C03crl")
+    crlgen.materialise(pkidir, os.path.join(runner.ROOT, "build/certgen"))
+    H = crlgen.histories(tier, seed)
+    nsh = 16
+    jobs = []
+    for i in range(nsh):
+        lines, metas = [], []
+        for k, h in enumerate(H[i::nsh]):
+            L, M = crlgen.render(h, pkidir, "R%d_%d" % (i, k))
+            lines += L; metas += M
+        sp = os.path.join(wd, "crl%02d.mx" % i); open(sp, "w").write("\n".join(lines) + "\n")
+        jobs.append((sp, os.path.join(wd, "crl%02d.nd" % i), metas))
+    with ThreadPoolExecutor(max_workers=16) as ex:
+        res = list(ex.map(lambda j: runner.run_driver(bdir, j[0], j[1], 1800), jobs))
+    good = []
+    nval = nrev = nok = 0
+    for (sp, tp, metas), r in zip(jobs, res):
+        if r["rc"] != 0:
+            rp = runner.save_replay(prop, "crash_" + os.path.basename(sp), open(sp).read().splitlines())
+            open(rp + ".stderr", "w").write(r["stderr"])
+            violations.append(("sanitizer", "driver terminated abnormally rc=%s: %s" % (r["rc"], r["stderr"][-300:].replace("\n", " ")), rp)); continue
+        out = []; k = 0
+        for l in open(tp):
+            d = json.loads(l)
+            if d.get("ev") in ("crl", "validate", "Reset") and d.get("tag") != "end":
+                if k >= len(metas): raise SystemExit("INFRA: more events than steps in %s" % tp)
+                d.update(metas[k]); k += 1
+                if d["ev"] == "validate":
+                    nval += 1; nrev += (-35 in d.get("st", [])); nok += (d.get("rcn", -1) >= 0 and all(x == 1 for x in d.get("st", [])))
+            out.append(json.dumps(d))
+        if k != len(metas): raise SystemExit("INFRA: %d events for %d steps in %s" % (k, len(metas), tp))
+        open(tp, "w").write("\n".join(out) + "\n")
+        good.append((sp, tp))
+    with ThreadPoolExecutor(max_workers=16) as ex:
+        vals = list(ex.map(lambda g: tlcutil.validate_trace(g[1], "MxCrl_Trace.tla", "MxCrl_Trace.cfg", 1800), good))
+    known = runner.load_known(prop)
+    for (sp, tp), v in zip(good, vals):
+        if v["infra"]:
+            print(v["out"][-3000:]); raise SystemExit("INFRA: TLC failed on %s" % tp)
+        tl = open(tp).read().splitlines(); src = open(sp).read().splitlines()
+        for ln in v["rejects"][:5]:
+            d = json.loads(tl[ln - 1])
+            # the history up to and including the rejected step
+            b = max([n for n in range(ln - 1) if src[n].startswith("reset ")] or [-1]) + 1
+            rp = runner.save_replay(prop, "crl_%s_%d" % (os.path.basename(sp)[:-3], ln), src[b:ln])
+            violations.append(("trace", "revocation history: step %r answered %s, not what MxCrl computes from the CRLs loaded so far" % (
+                d.get("chain") or d.get("crl"), "accepted" if (d.get("rcn", -1) >= 0 and all(x == 1 for x in d.get("st", [0]))) else ("revoked" if -35 in d.get("st", []) else "authd=%s rcn=%s st=%s" % (d.get("authd"), d.get("rcn"), d.get("st")))), rp))
+    st.update(crl_histories=len(H), crl_validations=nval, crl_validations_revoked=nrev, crl_validations_accepted=nok)
+    return st
 
 def run(tier, seed):
     prop = "C03"
@@ -24,6 +91,8 @@ def run(tier, seed):
         violations.append(("model", "Walk and Valid disagree on an abstract scenario (see file)", p))
     elif not mc["ok"]:
         print(mc["out"][-3000:]); raise SystemExit("INFRA: TLC failed on MxX509_MC")
+    # ---- revocation: the stateful part (CRL cache) ----
+    crl_stats = crl_part(prop, tier, seed, bdir, wd, violations)
     rnd = random.Random(seed)
     allsc = list(x509gen.scenarios())
     if tier == "quick":
@@ -93,7 +162,7 @@ def run(tier, seed):
         print("KNOWN-FINDING: property=%s %s" % (prop, k["what"]))
     for kind, text, rp in violations[:40]:
         print("VIOLATION property=%s replay=%s" % (prop, rp)); print("  (%s) %s" % (kind, text[:600]))
-    cov = {"states": mc.get("states", 0), "transitions": mc.get("transitions", 0), "traces_validated_against_impl": nvalid,
+    cov = {"states": mc.get("states", 0) + crl_stats.get("crl_states", 0), "transitions": mc.get("transitions", 0), "traces_validated_against_impl": nvalid, "revocation": crl_stats,
            "samples": [{"chain": [c["id"] for c in ch], "anchors": [c["id"] for c in an], "detail": ch} for ch, an in scens[:2]],
            "evaluations": len(scens), "distinct_nontrivial": len(distinct),
            "rule": "scenario = chain shape x anchor set x up to two single-field deviations (quick: all with <= 1 deviation + a sample of pairs; thorough: all 77k); distinct_nontrivial = distinct (chain length, anchors, return code, status vector, flag vector) outcomes",
